@@ -74,10 +74,10 @@ def capture(vq_codebooks):
     for cb in vq_codebooks:
         og = cb.gumbel_sample
 
-        def gs_wrap(logits, og=og, **kw):
+        def gs_wrap(logits, og=og, cb=cb, **kw):
             n0 = len(log)
             ind, onehot = og(logits, **kw)
-            log.append(('sample', logits.detach().clone(), dict(kw), ind.detach().clone(), n0))
+            log.append(('sample', logits.detach().clone(), dict(kw), ind.detach().clone(), n0, cb))
             return ind, onehot
         cb.gumbel_sample = gs_wrap
         origs.append((cb, og))
@@ -133,6 +133,11 @@ def correspond(ctx, scale):
             cbs = [mod._codebook]
             d = 2 * d
             dist['multi_head_configs'] = dist.get('multi_head_configs', 0) + 1
+        if residual and ci % 2 == 0:
+            # per-stage annealing on the live stack: every layer has ITS OWN configured temperature
+            for li_, layer_ in enumerate(mod.layers):
+                layer_._codebook.sample_codebook_temp = [Tcfg, 0.1, 0.0][li_ % 3] if li_ else Tcfg
+            dist['per_layer_temperatures'] = dist.get('per_layer_temperatures', 0) + 1
         mod.train(train)
         # a HISTORY of calls on this one layer object: the temperature in force at each call is the per-call one if given, else the CONFIGURED one
         # (a per-call temperature must not stick to later calls)
@@ -160,9 +165,10 @@ def correspond(ctx, scale):
                 torch.set_default_dtype(old_default)
                 restore()
             ev += 1
-            Teff = Tcall if Tcall is not None else Tcfg
             for pos, ent in [(i, e) for i, e in enumerate(log) if e[0] == 'sample']:
-                _, logits, skw, ind, n0 = ent
+                _, logits, skw, ind, n0, cb_e = ent
+                # the temperature in force for THIS layer: the per-call one if given, else the one configured on this layer's codebook (layers may differ)
+                Teff = Tcall if Tcall is not None else float(cb_e.sample_codebook_temp)
                 noises = [e for e in log[n0:pos] if e[0] == 'noise']
                 T_seen = skw.get('temperature')
                 if T_seen != Teff:
